@@ -131,9 +131,10 @@ def record(lentil, tier, seed):
         else:
             gain = [[[g(allow_neg) for _ in range(n)] for _ in range(m)] for _ in range(order)]
             gj, greal = [[[sp.rj(x) for x in r] for r in p] for p in gain], np.array([[[float(x) for x in r] for r in p] for p in gain])
-        sat = rng.choice((None, None, top // 2, top // 4, 1))
+        sat = rng.choice((None, None, top // 2, top // 4, 1, 0))           # (a capacity of zero is a capacity: everything clips to it)
         warnflag = rng.random() < 0.5
-        ein = e.astype(float) if rng.random() < 0.5 else e.copy()
+        # electron counts arrive as floats or as integer counts of any width (a count is a count)
+        ein = e.astype(rng.choice((float, float, np.int64, np.int32, np.int16, np.float32)))
         # the requested output type must be able to hold the result (otherwise the cast itself is undefined behaviour)
         try:
             with warnings.catch_warnings():
